@@ -99,7 +99,11 @@ Min(a, b) == IF a < b THEN a ELSE b
 \* the server may return fewer bytes than the chunk limit (the limit can change between requests): with pic.vary the
 \* chunk length depends on the offset; it is always >= 1 while bytes remain
 ChunkLen(pic, off, size) == Min(IF pic.vary /\ off % 3 = 1 /\ pic.limit > 1 THEN pic.limit - 1 ELSE pic.limit, size - off)
-ExecPic(pic, embedded, off, idx, dig(_, _, _)) ==
+\* two pictures per server: URIs ending in "_alt.flac" have their own picture (w.pic2) whose bytes carry other tags (tb = 2)
+ALTSUFFIX == <<95,97,108,116,46,102,108,97,99>>
+IsAlt(uri) == Len(uri) >= Len(ALTSUFFIX) /\ SubSeq(uri, Len(uri) - Len(ALTSUFFIX) + 1, Len(uri)) = ALTSUFFIX
+TbFor(uri) == IF IsAlt(uri) THEN 2 ELSE 0
+ExecPic(pic, tb, embedded, off, idx, dig(_, _, _)) ==
   LET name == IF embedded THEN READPICTURE ELSE ALBUMART
       size == IF embedded THEN pic.embedded ELSE pic.file
       ack  == IF embedded THEN pic.embedded_ack ELSE pic.file_ack IN
@@ -109,7 +113,7 @@ ExecPic(pic, embedded, off, idx, dig(_, _, _)) ==
   ELSE LET n == ChunkLen(pic, off, size) IN
        [ok |-> TRUE, ls |-> <<Fld(SIZE, Dec(size))>>
                             \o (IF embedded /\ pic.hasMime THEN <<Fld(TYPE, pic.mime)>> ELSE <<>>)
-                            \o <<BinL(n, dig(IF embedded THEN 1 ELSE 2, off, n))>>]
+                            \o <<BinL(n, dig((IF embedded THEN 1 ELSE 2) + tb, off, n))>>]
 
 \* ------------------------------------------------------------------ results
 Frame(f, bn, bd) == [f |-> f, bn |-> bn, bd |-> bd]
@@ -133,7 +137,7 @@ SameRes(a, b) == /\ a.t = b.t /\ a.frames = b.frames /\ a.code = b.code /\ a.idx
 
 \* ------------------------------------------------------------------ the world record
 InitW(hasPw, pw, srvPw, hasSrvPw, auth, pic) ==
-  [ phase |-> "hs", hasPw |-> hasPw, pw |-> pw, srvPw |-> srvPw, hasSrvPw |-> hasSrvPw, auth |-> auth, pic |-> pic,
+  [ phase |-> "hs", hasPw |-> hasPw, pw |-> pw, srvPw |-> srvPw, hasSrvPw |-> hasSrvPw, auth |-> auth, pic |-> pic, pic2 |-> pic,
     mode |-> "ready", pend |-> <<>>, listAcc |-> <<>>, silent |-> FALSE,
     out |-> <<>>, reps |-> <<>>, wr |-> 0, dl |-> 0, rd |-> 0,
     nlines |-> 0, lastK |-> "", nwritesAfterReject |-> 0,
@@ -270,7 +274,7 @@ WCliLineD(w, ln, dig(_, _, _)) ==
          LET s == ServerSees([w7 EXCEPT !.mode = "ready"], <<CmdT(ln.k, ln.id)>>) IN
          Emit(s.w, "cmd", Append(ExecT(CmdT(ln.k, ln.id)), OkL), s.ri)
     [] ln.k = "pic"    ->
-         LET x == ExecPic(w7.pic, ln.fail, ln.pad, 0, dig) IN
+         LET x == ExecPic(IF IsAlt(ln.id) THEN w7.pic2 ELSE w7.pic, TbFor(ln.id), ln.fail, ln.pad, 0, dig) IN
          Emit([w7 EXCEPT !.mode = "ready", !.art = Append(@, [emb |-> ln.fail, off |-> ln.pad, uri |-> ln.id, at |-> w7.wr])], "pic", IF x.ok THEN Append(x.ls, OkL) ELSE x.ls, 0)
     \* anything else is not part of a session the harness can ask for: the client corrupted its own output (e.g. a truncated
     \* line glued to the next one).  From here on the simulator and the model may answer differently: conformance is off.
@@ -339,15 +343,16 @@ WArtResolve(w, ri, res) ==
   LET r == w.reqs[ri]
       mine == SelectSeq(w.art, LAMBDA a : a.uri = r.uri)
       seen == [k \in 1..Len(mine) |-> <<mine[k].emb, mine[k].off>>]
-      e == ArtExpect(w.pic) IN
+      pic == IF IsAlt(r.uri) THEN w.pic2 ELSE w.pic
+      e == ArtExpect(pic) IN
   IF res.t \in {"closed", "proto"} THEN Chk(w, w.fault # "" \/ w.handles = 0 \/ ~r.wasAlive, "C17", "album art failed with a connection error on a healthy connection")
   ELSE IF w.fault # "" THEN w      \* after a fault only C08 applies
   ELSE
   LET w1 == Chk(w, seen = e.reqs, "C17", "album art requests are not the expected commands at strictly increasing offsets (offset = bytes received so far), with fallback exactly when required")
   IN CASE e.o = "art" ->
             Chk(Chk(Chk(w1, res.t = "art" /\ res.code = e.size, "C17", "album art does not have the picture's length"),
-                    res.t # "art" \/ e.size = 0 \/ res.idx = e.src, "C17", "album art bytes are not exactly the picture's bytes"),
-                res.t # "art" \/ (IF e.src = 1 /\ w.pic.hasMime THEN res.kind = "mime" /\ res.msg = w.pic.mime ELSE res.kind = ""), "C17", "MIME type not propagated exactly when the server gave one")
+                    res.t # "art" \/ e.size = 0 \/ res.idx = e.src + TbFor(r.uri), "C17", "album art bytes are not exactly the picture's bytes"),
+                res.t # "art" \/ (IF e.src = 1 /\ pic.hasMime THEN res.kind = "mime" /\ res.msg = pic.mime ELSE res.kind = ""), "C17", "MIME type not propagated exactly when the server gave one")
        [] e.o = "none" -> Chk(w1, res.t = "art_none", "C17", "absence not reported although neither source has data")
        [] OTHER -> Chk(w1, res.t = "ack" /\ res.code = e.code, "C17", "server error not propagated")
 
